@@ -198,9 +198,23 @@ func VC02Label() {
 	if !ok {
 		vrt.Assume(false)
 	}
+	// forward layout in 16-bit mode: optionally a statement stands before the
+	// carrier whose pass-1 size has special cases ([BP+SI] needs no
+	// displacement byte, [BP] does): the label's address depends on it
+	pres := []struct {
+		text string
+		n    int
+	}{{"", 0}, {"MOV AX,[BP+SI]", 2}, {"MOV [BP+DI],CL", 2}, {"MOV AX,[BP]", 3}, {"NOT WORD [BP+DI]", 2}}
+	pre := pres[0]
+	if forward && mode == 16 {
+		pre = pres[vrt.Choose("pre", len(pres))]
+	}
 	var sb subs
 	src := bitsHeader(mode) + "ORG " + lit(org, &sb) + "\n"
 	if forward {
+		if pre.text != "" {
+			src += pre.text + "\n"
+		}
 		src += st0.Text() + "\nlbl:\nDW 0\n"
 	} else {
 		src += "lbl:\nDW 0\n" + st0.Text() + "\n"
@@ -217,8 +231,12 @@ func VC02Label() {
 	code := out[2:]
 	addr := org
 	if forward {
-		code = out[:len(out)-2]
-		addr = org + int64(len(code))
+		if len(out) < pre.n+3 {
+			vrt.Reach("c02l.rejected")
+			return
+		}
+		code = out[pre.n : len(out)-2]
+		addr = org + int64(len(out)-2)
 	}
 	st, _ := c02CarrierStmt(carrier, mode, sz, MemSpec{Label: "lbl", HasDisp: true, Disp: addr})
 	inst, okd := x86ref.Decode(code, mode, 0)
